@@ -65,6 +65,30 @@ def arm_of(sw, n):
     return None
 
 
+def decisions(cond):
+    """[(atoms, outcome)]: every way the condition can evaluate, as the sequence of atomic tests ((node, polarity), ...) made in evaluation order."""
+    if cond is None:
+        return [((), True)]
+    k = cond.get('k')
+    if k == 'ParenExpr' and cond.get('c'):
+        return decisions(cond['c'][0])
+    if k == 'UnaryOperator' and cond.get('op') == '!' and cond.get('c'):
+        return [(a, not o) for a, o in decisions(cond['c'][0])]
+    if k == 'CXXOperatorCallExpr' and cond.get('op') == '!' and len(cond.get('c') or ()) == 2 and (cond.get('t') or '') == 'bool':
+        pass        # an overloaded operator! (e.g. on lit) is a value, not a control decision
+    if k == 'BinaryOperator' and cond.get('op') in ('&&', '||') and len(cond.get('c') or ()) == 2:
+        isand = cond['op'] == '&&'
+        out = []
+        for a, oa in decisions(cond['c'][0]):
+            if oa != isand:                 # short circuit: false && .. / true || ..
+                out.append((a, oa))
+            else:
+                for b, ob in decisions(cond['c'][1]):
+                    out.append((a + b, ob))
+        return out
+    return [(((cond, True),), True), (((cond, False),), False)]
+
+
 def enum_paths(stmt, limit=4000):
     """All acyclic paths through a statement made of compound / if / switch /
     return / throw; loops, try blocks and everything else are opaque single
@@ -108,9 +132,12 @@ def enum_paths(stmt, limit=4000):
             sl = s['slots']
             pre = tuple(x for x in (sl.get('init'), sl.get('condvar')) if x)
             out = []
-            for pol, br in ((True, sl.get('then')), (False, sl.get('else'))):
-                for q in paths(br):
-                    out.append(Path((('if', sl.get('cond'), pol),) + q.conds, pre + q.stmts, q.end, q.endnode))
+            sub = {True: paths(sl.get('then')), False: paths(sl.get('else'))}
+            # the condition is decomposed into atomic decisions in evaluation order (short-circuit semantics): `if (a && b) X else Y`, the nested
+            # `if (a) { if (b) X else Y } else Y`, `if (!(a && b)) Y else X` and the early-exit forms all yield the same set of paths
+            for atoms, outcome in decisions(sl.get('cond')):
+                for q in sub[outcome]:
+                    out.append(Path(tuple(('if', n, pol) for n, pol in atoms) + q.conds, pre + q.stmts, q.end, q.endnode))
             return out
         if kind == 'SwitchStmt':
             arms = switch_arms(s)
